@@ -216,7 +216,7 @@ def run(r):
         # "plus the modules those files pull in": a selected file imports a module of its own directory that is not a
         # pytest-named file (also modules named like standard-library modules, legal names for local modules); the
         # scan must index that module and its fixtures (the closure itself is C14's subject; here: one step)
-        pulled_cases, pulled_meta = [], []
+        pulled_cases, pulled_meta, deep_mods = [], [], []
         for k in range(14 if quick else 60):
             proot = os.path.join(base, "pulled_%d" % k, "proj")
             mods = rnd.sample(["helpers_a", "types", "http", "logging", "shared_fx", "json", "kinds"], 3)
@@ -229,6 +229,19 @@ def run(r):
                 # (or nothing) behind `from`, several blanks
                 imps.append(rnd.choice(["from .%s import *", "from .%s import from_%s", "import os; from .%s import *", "from\t.%s import *",
                                         "from.%s import from_%s", "from  .%s  import  *", "X = 1; from .%s import from_%s"]).replace("%s", m))
+            # a module below a directory that is (or is not: a namespace package) a regular package, named by a
+            # dotted path in an absolute import or a pytest_plugins entry
+            ns = "nsdir_%d" % k
+            os.makedirs(os.path.join(proot, sub, ns), exist_ok=True)
+            if rnd.random() < 0.5:
+                open(os.path.join(proot, sub, ns, "__init__.py"), "w").write("")
+                tagc["pulled:regular-package"] += 1
+            else:
+                tagc["pulled:namespace-package"] += 1
+            open(os.path.join(proot, sub, ns, "deep.py"), "w").write("import pytest\n\n@pytest.fixture\ndef from_deep():\n    return 1\n")
+            imps[1] = imps[1] + "\n" + rnd.choice(["from %s.deep import *" % ns, "pytest_plugins = (\"%s.deep\",)" % ns, "pytest_plugins = \"%s.deep\"" % ns,
+                                                  "from %s.deep import from_deep" % ns])
+            deep_mods.append((k, os.path.join(sub, ns, "deep.py")))
             eol = rnd.choice(["\n", "\n", "\r\n"])
             bom = rnd.random() < 0.3      # saved with a UTF-8 byte-order mark, the import on the first line
             conf = ("\ufeff" + imps[0] + "\nimport pytest\n" + imps[1] + "\n") if bom else ("import pytest\n" + "\n".join(imps[:2]) + "\n")
@@ -243,6 +256,9 @@ def run(r):
             keys = set(os.path.realpath(x) for x in pobs[k]["obs"][1])
             names = set(nm for nm, ds in pobs[k]["obs"][2]["definitions"])
             missing = [m for m in mods if os.path.realpath(os.path.join(proot, sub, m + ".py")) not in keys or ("from_" + m) not in names]
+            for (kk, rel) in deep_mods:
+                if kk == k and (os.path.realpath(os.path.join(proot, rel)) not in keys or "from_deep" not in names):
+                    missing.append(rel)
             tagc["pulled_in_modules"] += len(mods)
             if missing:
                 r.violation({"property": PID, "part": "pulled-in modules", "why": "a module that a selected file of the workspace imports from its own directory "
